@@ -715,12 +715,11 @@ class Unit:
         """self == other"""
         if isinstance(other, Unit):
             if self.qty_cls is other.qty_cls:
-                if self._equiv is None:
-                    assert other._equiv is None
+                if (self.qty_cls.ref_unit is None
+                        or self._equiv is None or other._equiv is None):
+                    # without a reference unit there is no common scale
                     return self is other
-                else:
-                    assert other._equiv is not None
-                    return self._equiv == other._equiv
+                return self._equiv == other._equiv
         return False
 
     def _compare(self, other: Any, op: CmpOpT) -> bool:
